@@ -375,10 +375,34 @@ def successive_requests(ctx):
                 np.array_equal(first, later), len(np.intersect1d(b1, b2))), dict(route="replay", **info))
 
 
+def improper_samples(ctx):
+    """half lines and the whole line: a sampler may refuse (NumPy does), but what it hands out lies in the support -- directly,
+    through generate_guess and through a derived prior"""
+    rng = ctx.rng
+    for lo, hi, g in ((-np.inf, 0.0, None), (-np.inf, 2.5, None), (-np.inf, 1.0, 0.75), (0.0, np.inf, None), (1.5, np.inf, 4.0), (-np.inf, np.inf, None), (-np.inf, -3.0, -10.0)):
+        u = Uniform(lo, hi, guess=g) if g is not None else Uniform(lo, hi)
+        for route, draw, inside in (("sample(300)", lambda: np.ravel(u.sample(300)), lambda v: (v >= lo) & (v <= hi)),
+                                    ("generate_guess([p], 200)", lambda: np.ravel(pr.generate_guess([u], 200)), lambda v: (v >= lo) & (v <= hi)),
+                                    ("(-p).sample(200)", lambda: np.ravel((-u).sample(200)), lambda v: (-v >= lo) & (-v <= hi)),
+                                    ("sample()", lambda: np.ravel(u.sample()), lambda v: (v >= lo) & (v <= hi))):
+            ctx.tried("improper-sample", (lo, hi, g, route))
+            np.random.seed(int(rng.integers(0, 2 ** 31)))
+            r = impl_call(draw)
+            if isinstance(r, tuple) and len(r) == 2 and r[0] == "err":
+                continue      # a refusal is not a sample outside the support
+            v = np.asarray(r, dtype=float)
+            bad = int((~inside(v)).sum()) + int((~np.isfinite(v)).sum())
+            if bad:
+                ctx.violation("C14:improper-sample-support", "Uniform(%r, %r%s): %d of %d values from %s lie outside the support (range %.4g ... %.4g)" % (
+                    lo, hi, "" if g is None else ", guess=%r" % g, bad, v.size, route, float(np.nanmin(v)), float(np.nanmax(v))), dict(kind="improper-sample", lo=lo, hi=hi, guess=g, route=route))
+                break
+
+
 def search(ctx):
     rng = ctx.rng
     n = ctx.n(100, 1000)
     successive_requests(ctx)
+    improper_samples(ctx)
     # deterministic probe of the documented improper-Uniform behaviour (known finding)
     for (lo, hi) in [(0.0, np.inf), (-np.inf, 3.0), (-np.inf, np.inf)]:
         u = Uniform(lo, hi)
